@@ -178,4 +178,223 @@ theorem overlapExisting_wrap {S : List UInt8} {b : Int} (hb : 1 ≤ b) (hn : S.l
       · rw [if_pos hp, if_pos hp]; rfl
       · rw [if_neg hp, if_neg hp]; rfl
 
+/-! ### addPending / addContiguous / cleanSG / sendToConnection -/
+
+@[simp] theorem Page.wrap_toCont (p : Page) : (Page.wrap p).toCont = Cont.wrap p.toCont := rfl
+@[simp] theorem Cont.wrap_toPage (c : Cont) : (Cont.wrap c).toPage = Page.wrap c.toPage := rfl
+@[simp] theorem Page.wrap_bytes (p : Page) : (Page.wrap p).bytes = p.bytes := rfl
+@[simp] theorem Cont.wrap_bytes (c : Cont) : (Cont.wrap c).bytes = c.bytes := rfl
+@[simp] theorem Cont.wrap_live (c : Cont) : (Cont.wrap c).live = c.live := rfl
+@[simp] theorem Cont.wrap_fin (c : Cont) : (Cont.wrap c).fin = c.fin := rfl
+@[simp] theorem Cont.wrap_start (c : Cont) : (Cont.wrap c).start = c.start := rfl
+@[simp] theorem Cont.wrap_seq (c : Cont) : (Cont.wrap c).seq = wq c.seq := rfl
+@[simp] theorem Page.wrap_seq (p : Page) : (Page.wrap p).seq = wq p.seq := rfl
+
+theorem bytesLen_wrap (l : List Page) : bytesLen (l.map Page.wrap) = bytesLen l := by
+  simp [bytesLen, List.map_map, Function.comp_def]
+
+theorem flat_wrap (l : List Cont) : flat (l.map Cont.wrap) = flat l := by
+  simp [flat, List.map_map, Function.comp_def]
+
+theorem pageCount_wrap (l : List Cont) : pageCount (l.map Cont.wrap) = pageCount l := by
+  induction l with
+  | nil => rfl
+  | cons c rest ih =>
+    simp only [pageCount, List.map_cons, List.filter_cons, Cont.wrap_live] at ih ⊢
+    split <;> simp [ih]
+
+theorem lastFin_wrap (l : List Cont) : lastFin (l.map Cont.wrap) = lastFin l := by
+  simp only [lastFin, List.getLast?_map]
+  cases l.getLast? <;> rfl
+
+theorem headStart_wrap (l : List Cont) : headStart (l.map Cont.wrap) = headStart l := by
+  simp only [headStart, List.head?_map]
+  cases l.head? <;> rfl
+
+theorem addPending_wrap {S : List UInt8} {b : Int} (hb : 1 ≤ b) (hn : S.length + 2 < 1073741824)
+    (h : Half) (used : Int) (firstSeq : Int) (ret : List Cont) (hf : InW b S.length firstSeq)
+    (hsv : SavedOK S b h) (hns : h.nextSeq = -1 ∨ InW b S.length h.nextSeq) :
+    addPending R h.wrap used (wq firstSeq) (ret.map Cont.wrap) =
+      ((addPending I h used firstSeq ret).1.wrap, (addPending I h used firstSeq ret).2.1,
+       (addPending I h used firstSeq ret).2.2.1.map Cont.wrap, (addPending I h used firstSeq ret).2.2.2) := by
+  unfold addPending
+  cases hsaved : h.saved with
+  | nil => simp [Half.wrap, hsaved]
+  | cons p rest =>
+    have hw : h.wrap.saved = Page.wrap p :: rest.map Page.wrap := by simp [Half.wrap, hsaved]
+    rw [hw]
+    simp only
+    have hbl : bytesLen (Page.wrap p :: rest.map Page.wrap) = bytesLen (p :: rest) := by
+      have := bytesLen_wrap (p :: rest); simpa using this
+    rw [hbl, Page.wrap_seq, real_add]
+    -- the end of the saved chain is nextSeq
+    have hend : InW b S.length (p.seq + ↑(bytesLen (p :: rest))) := by
+      rcases hsv with hnil | ⟨hne, s0, hs0, hch⟩
+      · rw [hsaved] at hnil; cases hnil
+      · rw [hsaved] at hch
+        have := hch.bytesLen
+        have hps : p.seq = s0 := hch.1
+        rw [hps, this]
+        exact hns.resolve_left hne
+    by_cases hc : I.add p.seq ↑(bytesLen (p :: rest)) ≠ firstSeq
+    · have hc' : wq (p.seq + ↑(bytesLen (p :: rest))) ≠ wq firstSeq := fun e => hc (wq_inj hb hn hend hf e)
+      rw [if_pos hc, if_pos hc']
+      simp [Half.wrap]
+    · have hc0 : p.seq + ↑(bytesLen (p :: rest)) = firstSeq := by simpa using hc
+      have hc' : ¬ wq (p.seq + ↑(bytesLen (p :: rest))) ≠ wq firstSeq := by rw [hc0]; simp
+      rw [if_neg hc, if_neg hc']
+      simp [Half.wrap, List.map_map, Function.comp_def]
+
+theorem addContiguousAux_wrap {S : List UInt8} {b : Int} (hb : 1 ≤ b) (hn : S.length + 2 < 1073741824) :
+    ∀ (q : List Page) (last : Int) (ret : List Cont), InW b S.length last → (∀ p ∈ q, At S b p.seq p.bytes) →
+      addContiguousAux R (q.map Page.wrap) (wq last) (ret.map Cont.wrap) =
+        ((addContiguousAux I q last ret).1.map Page.wrap, wq (addContiguousAux I q last ret).2.1,
+         (addContiguousAux I q last ret).2.2.map Cont.wrap)
+  | [], last, ret, _, _ => by simp [addContiguousAux]
+  | p :: rest, last, ret, hl, hok => by
+    have hp := (hok p (List.mem_cons_self ..)).inW
+    simp only [List.map_cons, addContiguousAux, Page.wrap_seq, Page.wrap_bytes]
+    rw [real_diff hb hn hl hp.1]
+    simp only [I_diff]
+    by_cases hc : p.seq - last = 0
+    · rw [if_pos hc, if_pos hc, real_add]
+      have hl' : InW b S.length (last + ↑p.bytes.length) := by
+        have : last = p.seq := by omega
+        rw [this]; exact hp.2
+      have := addContiguousAux_wrap hb hn rest (last + ↑p.bytes.length) (ret ++ [p.toCont]) hl'
+        (fun r hr => hok r (List.mem_cons_of_mem _ hr))
+      simp only [List.map_append, List.map_cons, List.map_nil, Page.wrap_toCont, I_add] at this ⊢
+      exact this
+    · rw [if_neg hc, if_neg hc]
+      simp
+
+theorem addContiguous_wrap {S : List UInt8} {b : Int} (hb : 1 ≤ b) (hn : S.length + 2 < 1073741824)
+    (h : Half) (last : Int) (ret : List Cont) (hl : InW b S.length last) (hok : ∀ p ∈ h.queue, At S b p.seq p.bytes) :
+    addContiguous R h.wrap (wq last) (ret.map Cont.wrap) =
+      ((addContiguous I h last ret).1.wrap, wq (addContiguous I h last ret).2.1,
+       (addContiguous I h last ret).2.2.map Cont.wrap) := by
+  unfold addContiguous
+  cases hq : h.queue with
+  | nil => simp [Half.wrap, hq]
+  | cons p rest =>
+    have hw : h.wrap.queue = Page.wrap p :: rest.map Page.wrap := by simp [Half.wrap, hq]
+    rw [hw]
+    simp only
+    have h1 : ¬ wq last = invalidSeq := wq_ne_neg1 _
+    have h2 : ¬ last = invalidSeq := by unfold InW at hl; simp only [invalidSeq_eq]; omega
+    rw [if_neg h1, if_neg h2]
+    have := addContiguousAux_wrap hb hn (p :: rest) last ret hl (fun r hr => hok r (by rw [hq]; exact hr))
+    simp only [List.map_cons] at this
+    rw [this]
+    simp [Half.wrap]
+
+theorem findKeep_wrap (toKeep : Int) : ∀ (all : List Cont) (cur skip : Int) (idx : Nat),
+    findKeep toKeep (all.map Cont.wrap) cur skip idx = findKeep toKeep all cur skip idx
+  | [], _, _, _ => rfl
+  | c :: rest, cur, skip, idx => by
+    simp only [List.map_cons, findKeep, Cont.wrap_bytes]
+    rw [findKeep_wrap toKeep rest]
+
+def wrapPs (r : List Page × Nat) : List Page × Nat := (r.1.map Page.wrap, r.2)
+
+theorem convertKept_wrap (ts : Int) (c : Cont) (skip : Int) :
+    convertKept R ts c.wrap skip = Res.mapR wrapPs (convertKept I ts c skip) := by
+  unfold convertKept
+  simp only [Cont.wrap_bytes, Cont.wrap_live, Cont.wrap_seq, Cont.wrap_fin, real_add, I_add]
+  by_cases h1 : skip < 0 ∨ skip > ↑c.bytes.length
+  · rw [if_pos h1, if_pos h1]; rfl
+  · rw [if_neg h1, if_neg h1]
+    by_cases h2 : c.live = true
+    · rw [if_pos h2, if_pos h2, splitPages_wrap]
+      simp [Res.mapR, wrapPs]
+    · rw [if_neg h2, if_neg h2]
+      by_cases h3 : skip ≠ 0
+      · rw [if_pos h3, if_pos h3]
+        simp [Res.mapR, wrapPs, Page.wrap, Cont.toPage, Cont.wrap]
+      · rw [if_neg h3, if_neg h3]
+        simp [Res.mapR, wrapPs]
+
+theorem convertAll_wrap (ts : Int) : ∀ (cs : List Cont) (skip : Int),
+    convertAll R ts (cs.map Cont.wrap) skip = Res.mapR wrapPs (convertAll I ts cs skip)
+  | [], _ => rfl
+  | c :: rest, skip => by
+    simp only [List.map_cons, convertAll, convertKept_wrap, convertAll_wrap ts rest]
+    cases convertKept I ts c skip with
+    | ok r =>
+      obtain ⟨ps, n⟩ := r
+      simp only [Res.mapR, wrapPs]
+      cases convertAll I ts rest 0 with
+      | ok r2 => obtain ⟨qs, m⟩ := r2; simp [Res.mapR, wrapPs]
+      | err k => rfl
+      | panic k => rfl
+    | err k => rfl
+    | panic k => rfl
+
+def wrap2 (r : Half × Int) : Half × Int := (r.1.wrap, r.2)
+
+theorem cleanSG_wrap (h : Half) (used : Int) (all : List Cont) (toKeep ts : Int) :
+    cleanSG R h.wrap used (all.map Cont.wrap) toKeep ts = Res.mapR wrap2 (cleanSG I h used all toKeep ts) := by
+  unfold cleanSG
+  simp only [findKeep_wrap, List.length_map]
+  generalize (if toKeep < 0 then (all.length, (0 : Int)) else findKeep toKeep all 0 toKeep 0) = r
+  obtain ⟨ndx, skip⟩ := r
+  simp only [← List.map_take, ← List.map_drop, pageCount_wrap, convertAll_wrap]
+  cases convertAll I ts (List.drop ndx all) skip with
+  | ok r => obtain ⟨ps, created⟩ := r; simp [Res.mapR, wrapPs, wrap2, Half.wrap]
+  | err k => rfl
+  | panic k => rfl
+
+theorem closeHalf_wrap (h : Half) (used : Int) :
+    closeHalf h.wrap used = ((closeHalf h used).1.wrap, (closeHalf h used).2) := by
+  simp [closeHalf, Half.wrap]
+
+def Sent.wrap (s : Sent) : Sent := { s with half := s.half.wrap, nextSeq := wq s.nextSeq }
+
+theorem sendToConnection_wrap {S : List UInt8} {b : Int} (hb : 1 ≤ b) (hn : S.length + 2 < 1073741824)
+    (h : Half) (used : Int) (r0 : Cont) (ts : Int) (keep : KeepRule) (pre : SendPre S b h r0) :
+    sendToConnection R h.wrap used [r0.wrap] ts keep = Res.mapR Sent.wrap (sendToConnection I h used [r0] ts keep) := by
+  have hr0 := pre.hat.inW
+  have hnsw : h.nextSeq = -1 ∨ InW b S.length h.nextSeq := by
+    rcases pre.ns with h1 | h1
+    · exact Or.inl h1
+    · right; unfold InW at *; omega
+  unfold sendToConnection
+  simp only [Cont.wrap_seq, Cont.wrap_bytes, real_add]
+  have hap := addPending_wrap hb hn h used r0.seq [r0] hr0.1 pre.saved hnsw
+  simp only [List.map_cons, List.map_nil] at hap
+  rw [hap]
+  -- addContiguous
+  obtain ⟨sv, h1, used1, hapI, hh1, _, _, _, _⟩ := addPending_spec S b h used r0 pre.saved pre.hat
+  have hq1 : h1.queue = h.queue := by rw [hh1]
+  simp only [hapI]
+  have hac := addContiguous_wrap hb hn h1 (r0.seq + ↑r0.bytes.length) (sv.map Page.toCont ++ [r0]) hr0.2
+    (fun p hp => (pre.ok p (hq1 ▸ hp)).1)
+  rw [hac]
+  simp only [I_add]
+  generalize addContiguous I h1 (r0.seq + ↑r0.bytes.length) (sv.map Page.toCont ++ [r0]) = ac
+  obtain ⟨h2, e, all⟩ := ac
+  simp only [flat_wrap, lastFin_wrap, headStart_wrap, cleanSG_wrap]
+  -- skip
+  have hskip : (if h.wrap.nextSeq ≠ invalidSeq then R.diff h.wrap.nextSeq (wq r0.seq) else -1) =
+      (if h.nextSeq ≠ invalidSeq then I.diff h.nextSeq r0.seq else -1) := by
+    rcases hnsw with hm | hw
+    · have : h.wrap.nextSeq = invalidSeq := by simp [Half.wrap, wns, hm]
+      rw [if_neg (by simpa using this), if_neg (by simpa using hm)]
+    · have h0 : 0 ≤ h.nextSeq := by unfold InW at hw; omega
+      have e0 : h.wrap.nextSeq = wq h.nextSeq := by simp only [Half.wrap]; exact wns_of_nonneg h0
+      rw [if_pos (by rw [e0]; exact wq_ne_neg1 _), if_pos (by simp only [invalidSeq_eq]; omega), e0,
+        real_diff hb hn hw hr0.1]
+  rw [hskip]
+  cases cleanSG I h2 used1 all (keepOffset keep (flat all).length) ts with
+  | ok r =>
+    obtain ⟨h3, used3⟩ := r
+    simp only [Res.mapR, wrap2]
+    by_cases hf : lastFin all = true
+    · rw [if_pos hf, if_pos hf, closeHalf_wrap]
+      simp [Res.mapR, Sent.wrap]
+    · rw [if_neg hf, if_neg hf]
+      simp [Res.mapR, Sent.wrap]
+  | err k => rfl
+  | panic k => rfl
+
 end Gp.Reasm
